@@ -34,6 +34,25 @@ def run_brief(r):
     return {k: r.get(k) for k in keys}
 
 
+def endgame(scen, rng, keep_dag=False):
+    """Scenario family for the end-of-run window: everything is handed over early in few large batches, the jobs run long,
+    and a user round is promoted while the last batches are still running and is delayed at its critical points until the
+    batches have finished and left the scheduler."""
+    if not keep_dag:
+        for j in scen["jobs"]:
+            if rng.random() < 0.8:
+                j["blocked_by"] = []
+    for g in scen["groups"]:
+        g["time_based"] = False
+        g["batch"] = rng.randint(3, 8)
+        g["try_add"] = True
+    scen["max_nodes"] = None
+    scen["user"] = {}
+    scen["endgame"] = True
+    scen["policy"].update(kind=rng.choice(["walk", "sticky"]), sticky=0.5, park_p=0.0, finish_w=rng.choice([0.3, 1.0]), start_w=1.0, time_w=0.0)
+    return scen
+
+
 class SimSpec:
     level = "exploration"
     zygote = True
@@ -83,6 +102,7 @@ class SimSpec:
             "max_nodes": hist(t["args"]["scen"]["max_nodes"] for t in tasks),
             "time_based_x_try_add": sum(1 for t in tasks if any(g["time_based"] and g["try_add"] for g in t["args"]["scen"]["groups"])),
             "long_delays_injected_at_critical_points": total(ok, "parks"),
+            "endgame_rounds_stalled_at": hist(r.get("endgame_stalled_at") for r in ok if r.get("endgame_stalled_at")),
             "inner_icontract_monitor_evaluations": total(ok, "inner_evals"),
             "inner_icontract_monitor_failures_advisory": total(ok, "inner_failure_count"),
             "scenarios_with_full_slurm_state_vocabulary": sum(1 for t in tasks if t["args"]["scen"].get("squeue_vocab") == "full"),
@@ -218,9 +238,9 @@ class C03(SimSpec):
                         j["group"] = scen["groups"][0]["name"]
                     scen["user"] = {}
                 if v == 1:
-                    # race variant: user rounds overlapping the last batches + long delays at critical points
-                    scen["user"] = {"try_submit": vr.choice([3, 4, 6]), "show_status": vr.choice([0, 1]), "p": vr.choice([0.02, 0.05])}
-                    scen["policy"]["park_p"] = vr.choice([0.3, 0.5])
+                    # end-of-run race variant: late user rounds delayed at their critical points
+                    endgame(scen, vr, keep_dag=True)
+                    scen["endgame_k"] = 1 + i % 10
                 scen["dag_id"] = i
                 scenario.normalize(scen)
                 out.append(sim_task(scen, sub_seed(s, v, "sched"), k))
@@ -348,10 +368,13 @@ class C05(SimSpec):
             for g in scen["groups"]:
                 g["batch"] = rng.randint(1, 2)
         scen["user"] = {"try_submit": rng.choice([0, 0, 1]), "show_status": rng.choice([0, 1])}
-        if i % 4 == 1:
+        if i % 8 == 5:
+            endgame(scen, rng)
+            scen["endgame_k"] = 1 + (i // 8) % 10  # which critical point of the late round is stalled: all of them in turn
+        elif i % 8 == 1:
             # race slice: several user rounds overlapping the last batches, long delays at the points between a round's
             # result scan, its scheduler poll and its status update
-            scen["user"] = {"try_submit": rng.choice([3, 4, 6]), "show_status": rng.choice([0, 1]), "p": rng.choice([0.02, 0.05])}
+            scen["user"] = {"try_submit": rng.choice([1, 3, 4]), "show_status": rng.choice([0, 1]), "p": rng.choice([0.02, 0.05]), "late_try": rng.choice([1, 2, 3])}
             scen["policy"]["park_p"] = rng.choice([0.3, 0.5])
             scen["policy"]["kind"] = rng.choice(["walk", "sticky"])
             scen["policy"]["finish_w"] = rng.choice([0.2, 1.0])
